@@ -479,11 +479,19 @@ func (eng *Engine) verifyFunc(p *packages.Package, key string, safetyOnly bool) 
 	res.CalledContracts = sortedKeys(u.calledContracts)
 	res.UsedLemmas = sortedKeys(u.usedLemmas)
 	if ct != nil {
-		for n := range ct.Loops {
+		for n, lc := range ct.Loops {
 			if !u.loopsSeen[n] {
+				// invariants / variants / use-hints are means of proof: if the loop they were written for is gone (replaced by a
+				// library call, unrolled, ...) and the function's own obligations are still discharged, nothing is lost.
+				// entry / step / returns / exit clauses are obligations in their own right: their loop must exist.
+				if len(lc.Entry) == 0 && len(lc.Steps) == 0 && len(lc.Returns) == 0 && len(lc.Exits) == 0 {
+					u.c.note("loop %d of the contract has no counterpart in the code any more; it only carried invariants (proof hints), which are dropped", n)
+					continue
+				}
 				res.MissingLoops = append(res.MissingLoops, n)
 			}
 		}
+		res.Abstracted = u.c.abstr
 	}
 	for _, o := range res.Obls {
 		o.Precise = res.Precise
